@@ -3,7 +3,7 @@
    _customize_tokens and, for every cap, by _limit_spacers; fixup_chunks turns the chunk stream
    of flatten_el into tokens with the same flat sequence; text chunks never contain '<' or '>'. *)
 From Coq Require Import List NArith Arith Bool String Lia.
-From WMD Require Import Gen.Tables Lib.Str Lib.PyChars Lib.Escape Model.RenderTokens Model.RenderMerge
+From WMD Require Import Gen.Tables Lib.Str Lib.PyChars Lib.Escape Model.RenderTokens Model.RenderMerge Model.RenderLabelled
      Proofs.EscapeProofs.
 Import ListNotations.
 Open Scope N_scope.
@@ -228,16 +228,6 @@ Proof.
 Qed.
 
 (* ------------------------------------------------------------------ fixup_chunks *)
-Definition chunk_str (c : chunk) : str :=
-  match c with
-  | CWord w => w
-  | CImg _ html => html
-  | CUndiff s => s
-  | CStart s => s
-  | CEnd s => s
-  | CHref _ => [32]
-  end.
-
 Lemma lstrip_skipn ws s : exists k, lstrip ws s = skipn k s /\ (k <= List.length s)%nat.
 Proof.
   induction s as [|c s [k [Hk Hl]]]; cbn [lstrip].
